@@ -409,6 +409,56 @@ Section WithFloat.
         end
     | _ => Err
     end.
+  (* ---- script: rdscript_to_dict / rdscript_from_dict (the seed given; without one the constructor draws it) ---- *)
+  Record script_obj := { sc_system : system_obj; sc_tsample : list F * (usys * dim); sc_dt : qty; sc_tmax : option qty; sc_policy : str;
+                         sc_interval : qty; sc_seed : Z; sc_init : str; sc_units : usys }.
+  Variable milli : F.    (* the text of the default time step, 1e-3 *)
+
+  Definition dimTime : dim := {| dS := 0; dT := 1; dQ := 0 |}.
+  Definition policies : list str :=
+    [[111; 110; 95; 116; 95; 115; 97; 109; 112; 108; 101]; [111; 110; 95; 105; 116; 101; 114; 97; 116; 105; 111; 110];
+     [111; 110; 95; 105; 110; 116; 101; 114; 118; 97; 108]; [110; 111; 95; 115; 97; 109; 112; 108; 105; 110; 103]]%N.   (* on_t_sample on_iteration on_interval no_sampling *)
+  Definition init_modes : list str := [[97; 117; 116; 111]; [110; 111; 110; 101]; [80; 111; 105; 115; 115; 111; 110]; [114; 101; 100; 105; 115; 116]]%N.   (* auto none Poisson redist *)
+
+  (* the t_max property: the value given, else the last requested time in the requested times' own units *)
+  Definition effective_tmax (s : script_obj) : qty :=
+    match sc_tmax s with Some q => q | None => (last (fst (sc_tsample s)) zero, snd (sc_tsample s)) end.
+
+  Definition write_script (s : script_obj) : jv :=
+    JObj (wr schema_script [Some (write_system (sc_system s)); Some (write_unitarray (sc_tsample s)); Some (JStr (print_qty (sc_dt s)));
+                           Some (JStr (print_qty (effective_tmax s))); Some (JStr (sc_policy s)); Some (JStr (print_qty (sc_interval s)));
+                           Some (JInt (sc_seed s)); Some (JStr (sc_init s)); Some (write_usys wr (sc_units s))]).
+
+  Definition read_script (v : jv) : res script_obj :=
+    match v with
+    | JObj dct =>
+        match read_fields jv schema_script dct with
+        | Ok [Some fsys; Some fts; fdt; ftmax; fpol; fint; Some (JInt seed); finit; funits] =>
+            match (match funits with None => Ok default_usys | x => read_units_field default_usys x end) with      (* default = "default" *)
+            | Ok u =>
+                match read_system u fsys, read_unitarray dimTime fts,
+                      (match fdt with None => Ok (milli, (u, dimTime)) | Some (JStr t) => read_qty dimTime t | Some _ => Err end),
+                      (match ftmax with None => Ok None | Some (JStr t) => match read_qty dimTime t with Ok q => Ok (Some q) | Err => Err end | Some _ => Err end),
+                      (match fint with None => Ok (one, (u, dimTime)) | Some (JStr t) => read_qty dimTime t | Some _ => Err end) with
+                | Ok sy, Ok ts, Ok dt, Ok tmax, Ok itv =>
+                    let pol := match fpol with Some (JStr p) => Some p | None => Some (hd [] policies) | Some _ => None end in
+                    let ini := match finit with Some (JStr p) => Some p | None => Some (hd [] init_modes) | Some _ => None end in
+                    match pol, ini with
+                    | Some p, Some m =>
+                        if mem_str p policies && mem_str m init_modes
+                        then Ok {| sc_system := sy; sc_tsample := ts; sc_dt := dt; sc_tmax := tmax; sc_policy := p; sc_interval := itv;
+                                   sc_seed := seed; sc_init := m; sc_units := u |}
+                        else Err
+                    | _, _ => Err
+                    end
+                | _, _, _, _, _ => Err
+                end
+            | Err => Err
+            end
+        | _ => Err
+        end
+    | _ => Err
+    end.
 End WithFloat.
 
 (* ---- executable comparison of JSON values, for the correspondence ---- *)
